@@ -163,7 +163,7 @@ export async function run(ctx) {
   for (let i = 0; i < N; i++) {
     const caseSeed = ctx.rng.u32()
     const r = new Rng(caseSeed)
-    const fs_ = genFileSet(r, { withInclude: false })
+    const fs_ = genFileSet(r, { withInclude: false, slotReceivers: true })
     // identifiers of the full documented alphabet (`$` and `_` anywhere, digits after the first character)
     if (r.bool(0.3)) fs_.files[fs_.main].children.push({ t: 'el', tag: 'i', attrs: [{ fam: 'plain', name: 'v', value: M.ev(X.bin('+', X.id(r.pick(['cls$name', '$', '$_', '_1', 'a$', '$9x'])), X.mem(X.id('$c'), r.pick(['_d$', '$', 'x$y']))) ) }], children: [{ t: 'text', v: M.ev(X.obj([{ k: 'kv', name: r.pick(['k$', '_k', '$']), e: X.id('_e1$') }])) }] })
     const multiline = r.bool(0.6)
